@@ -93,14 +93,17 @@ P("C26", [("K4", None), ("V0", None)],
   "Assumed: every TyData comes from intern_ty; rigid AssociatedType/OpaqueType count as applications; STILL_FURTHER_SPECIALIZABLE masked out.",
   "contract-based verification: Kani harness contracts per enum variant (symbolic child flags) + Verus induction lemma")
 
-P("C16", [("K8", None), ("K1", r"^k1_(c_bv_shifted_in_from|c_db_shifted_in_from|l_universe)")],
+P("C16", [("K8", None), ("K1", r"^k1_(c_bv_shifted_in_from|c_db_shifted_in_from|l_universe)"), ("V21", None)],
   "model_checking",
-  "Partial (second sentence of C16 only): Kani on the real UniverseMap code proves, invariant-style, that `new` establishes and `add` preserves a strictly increasing, rooted universe "
+  "Partial (leaf rules of the first sentence + the second sentence). Verus proves on the verbatim text of the Canonicalizer's leaf methods that an unbound unknown of any kind is replaced by "
+  "the innermost bound variable (seen from under the binders already entered) whose index is the position of its UNION-FIND ROOT in free_vars - reused when the class was met before, appended with the "
+  "unknown's kind at its first occurrence - so unified unknowns share one index and numbering follows first occurrence; that placeholders are kept and their universe is folded into max_universe; that "
+  "free_vars only ever grows and the union-find classes are not modified (unbounded; Canonicalizer::add's own contract is assumed). Kani on the real UniverseMap code proves, invariant-style, that `new` establishes and `add` preserves a strictly increasing, rooted universe "
   "vector, and that for EVERY such vector universe compression is order preserving, injective, invertible below the number of universes and maps out-of-range canonical universes "
   "strictly above every universe of the query (universe values fully symbolic); plus the index shift applied to the fresh bound variable (K1). BOUNDED in the vector length (<= 3).",
-  "Not reached: first-occurrence numbering (Canonicalizer::add: iterator+closure code outside Verus; in Kani the Clone glue of GenericArg reached through ena makes CBMC time out), "
+  "Not reached: the body of Canonicalizer::add (iterator+closure code outside Verus; in Kani the Clone glue of GenericArg reached through ena makes CBMC time out), into_binders, "
   "the 'exactly when' over whole values, the instantiate/canonicalize round trip, inversion. Assumed: binary_search, Vec::insert as compiled by Kani.",
-  "contract-based verification with Kani harness contracts compiled inside chalk-solve (tracing replaced by a no-op stand-in), bounded")
+  "contract-based verification: Kani harness contracts compiled inside chalk-solve (tracing replaced by a no-op stand-in), bounded; Verus on mechanically extracted function text")
 
 P("C09", [("K11", None), ("V3", None), ("V17", None)],
   "model_checking",
@@ -166,12 +169,21 @@ P("C28", [("V5", None), ("K12", r"_ans"), ("V1", None), ("K8", r"laws"), ("V8", 
   "Not reached: arity/kind agreement of the substitution with the query's binders (established inside resolution and canonicalisation), Fulfill::solve.",
   "contract-based verification: Verus on extracted text + Kani harness contracts")
 
+P("C12", [("V22", None)],
+  "proof",
+  "Partial (the SLG recovery mechanism named in the anchors): Verus proves on the verbatim text of <SolveState as Drop>::drop, SolveState::unwind_stack and the Stack methods they use that, "
+  "whatever the stack looks like when the solve state is dropped, afterwards the stack is empty and every strand the stack held - the top entry's active strand included - is back at the end of the "
+  "queue of ITS OWN table, in stack order, each exactly once, and nothing else of any table changed; unwind_stack terminates. Unbounded, for every stack height and table assignment.",
+  "Not reached: that the forest with all strands re-queued answers like a fresh one (a statement about the whole state machine), strands held in local variables of the state machine at the moment of the "
+  "panic (StackEntry's FIXME), 'tables are inserted only after build_table returns', the recursive solver's side (solve_root_goal's empty-stack assertion; K11 covers its Stack). Assumed: Rust drops the "
+  "SolveState on unwinding; the stack invariant 'every entry below the top holds its suspended strand'.",
+  "contract-based deductive verification: Verus on mechanically extracted function text, in-place loop invariant with termination measure, proved sequence lemmas")
+
 # ---- not (yet) claimed
 NOT_APPLICABLE['C02'] = "completeness of proof search within size limits is a whole-search statement; the mechanisms named in the anchors (on_no_strands_left, clear_strands_after_cycle, solve_new_subgoal, Fulfill::fulfill) log, use FxHashMap tables and custom Index impls (DESIGN P5/P6/P10) and none has a per-function contract implying 'never Ambiguous'"
 NOT_APPLICABLE['C04'] = 'relational property between two whole solvers; no function has a contract that mentions both'
 NOT_APPLICABLE['C06'] = 'the closure is computed by program_clauses_for_env (hash sets, iterator adaptors, logging) and a TypeVisitor; no extractable function carries the property'
 NOT_APPLICABLE['C10'] = 'property over histories of solver calls; Forest.tables / SearchGraph / Cache are FxHashMap-backed and logged (P5/P6/P10)'
-NOT_APPLICABLE['C12'] = 'Kani has no unwinding (panic=abort) and Verus has no panics; the state at an arbitrary unwinding point of logic.rs needs state-machine invariants that are out of reach'
 NOT_APPLICABLE['C18'] = "could_match is one generic Zip-driven recursion (MatchZipper over the derive(Zip) machinery, with a closure inside the match): not extractable for Verus, and two Kani attempts (symbolic head kinds; concrete head pairs with symbolic leaf children) needed 5-9 GB and did not finish in 7 minutes per harness even for leaf-vs-leaf — recorded in DESIGN.md; no bounded stand-in small enough to be worth claiming"
 NOT_APPLICABLE['C20'] = 'the orphan rule is realised by clause generation (closures, iterators, logging) plus a solver run; no contract within reach expresses it'
 NOT_APPLICABLE['C21'] = 'solver-mediated; wf.rs builds goals with iterator chains and closures'
